@@ -162,6 +162,12 @@ def arg_code(atom, n, v):
         return [], [], [v[0].lower()], []
     if isinstance(atom, A.ClsArg):
         return [], [], ["zz_obj%d" % v], []
+    if isinstance(atom, A.StructArg):
+        ti, td = A.NATIVE["int"], A.NATIVE["double"]
+        d = ["type(pt) :: %s" % z]
+        s = ["%s%%i = %s" % (z, flit(ti, v[0])), "%s%%d = %s" % (z, flit(td, v[1]))] if atom.intent != "out" else []
+        p = [obs_scalar(ti, z + "%i"), obs_scalar(td, z + "%d")] if atom.intent != "in" else []
+        return d, s, [z], p
     raise NotImplementedError(atom.id)
 
 
@@ -189,6 +195,11 @@ def res_code(res, call, extra):
         return ["%s, allocatable :: zz_r(:)" % res.t.fdecl], ["zz_r = " + call, obs_array(res.t, "zz_r")]
     if isinstance(res, A.EnumRes):
         return ["integer(C_INT) :: zz_r"], ["zz_r = " + call, "call obs_i(int(zz_r, C_LONG_LONG))"]
+    if isinstance(res, A.StructRes):
+        ti, td = A.NATIVE["int"], A.NATIVE["double"]
+        if res.form == "val":
+            return ["type(pt) :: zz_r"], ["zz_r = " + call, obs_scalar(ti, "zz_r%i"), obs_scalar(td, "zz_r%d")]
+        return ["type(pt), pointer :: zz_r"], ["zz_r => " + call, obs_scalar(ti, "zz_r%i"), obs_scalar(td, "zz_r%d")]
     raise NotImplementedError(res.id)
 
 
